@@ -114,6 +114,23 @@ func (w *worker) kill() {
 	_, _ = w.cmd.Process.Wait()
 }
 
+// harnessDied: the worker stopped itself with a harness error (exit 2) — pass it on instead of blaming the implementation.
+func (w *worker) harnessDied() (string, bool) {
+	_ = w.in.Close()
+	done := make(chan error, 1)
+	go func() { done <- w.cmd.Wait() }()
+	select {
+	case err := <-done:
+		if ee, ok := err.(*exec.ExitError); ok && ee.ExitCode() == 2 {
+			w.errb.mu.Lock()
+			defer w.errb.mu.Unlock()
+			return w.errb.b.String(), true
+		}
+	case <-time.After(2 * time.Second):
+	}
+	return "", false
+}
+
 // runIsolated executes a script in the worker process.
 func runIsolated(c corr.Case) corr.Result {
 	crash := func(msg string) corr.Result {
@@ -155,6 +172,10 @@ func runIsolated(c corr.Case) corr.Result {
 	case r := <-ch:
 		var rp wrep
 		if r.err != nil || json.Unmarshal(r.line, &rp) != nil || len(rp.Outs) != len(c.Lines) {
+			if msg, yes := w.harnessDied(); yes {
+				fmt.Fprintln(os.Stderr, msg)
+				os.Exit(2)
+			}
 			time.Sleep(20 * time.Millisecond) // let stderr arrive
 			msg := w.errb.head()
 			w.kill()
